@@ -106,6 +106,26 @@ def make_hash(table, probe=7):
     return hf
 
 
+KEYMAP = {"a": "alpha", "b": b"beta-bytes", "c": "g\u00e4mma-\u4e2d", "d": b"\x00\xff\x80delta"}
+
+
+def strategy_fn(name):
+    """one of the hashing strategies the properties quantify over (None = the library's default FNV-1a)"""
+    if name in (None, "fnv"):
+        from probables.hashes import default_fnv_1a
+
+        return default_fnv_1a
+    from .hashes import strategies
+
+    return strategies()[name][0]
+
+
+def strategy_table(name, keys, k, size):
+    """the table TLC gets for a real strategy: the strategy is called once per key, positions reduced modulo the size"""
+    fn = strategy_fn(name)
+    return {key: tuple(h % size for h in fn(KEYMAP[key], k)) for key in keys}
+
+
 class Ctx:
     def __init__(self, tally, params):
         import probables.blooms.countingbloom as cbm
@@ -116,6 +136,8 @@ class Ctx:
         self.BF, self.BFD, self.CBF = BloomFilter, BloomFilterOnDisk, CountingBloomFilter
         self.counting = params["counting"]
         self.keys = sorted(params["keys"])
+        self.strategy = params.get("strategy")
+        self.rk = (lambda k: KEYMAP.get(k, k)) if self.strategy else (lambda k: k)   # model key -> real key
         self.M, self.K = params["M"], params["K"]
         self.tmp = tempfile.mkdtemp(prefix="bloom-", dir=tlc.scratch_root())
         self.seq = 0
@@ -144,9 +166,9 @@ class Ctx:
     def apply(self, objs, o):
         f = objs[o[1]]
         if o[0] == "add":
-            return f.add(o[2], o[3]) if self.counting else f.add(o[2])
+            return f.add(self.rk(o[2]), o[3]) if self.counting else f.add(self.rk(o[2]))
         if o[0] == "rem":
-            return f.remove(o[2], o[3])
+            return f.remove(self.rk(o[2]), o[3])
         if o[0] == "clear":
             return f.clear()
         if o[0] == "rt":
@@ -181,12 +203,14 @@ class Ctx:
         return {
             "cells": self.cells(f),
             "n": f.elements_added,
-            "est": {k: int(f.check(k)) for k in self.keys},
-            "in": {k: bool(k in f) for k in self.keys},
+            "est": {k: int(f.check(self.rk(k))) for k in self.keys},
+            "in": {k: bool(self.rk(k) in f) for k in self.keys},
         }
 
     def build(self, table, hist):
-        hf = make_hash(table)
+        hf = strategy_fn(self.strategy) if self.strategy else make_hash(table)
+        if self.strategy == "fnv":
+            hf = None  # the library default
         kinds = self.p.get("kinds", ("mem", "mem"))
         objs = {"A": self.new(kinds[0], hf), "B": self.new(kinds[1], hf)}
         for o in hist:
@@ -291,7 +315,7 @@ class Ctx:
                 t.nontriv(hash(repr((table, hist, o)))) if t.focus == "C16" else None
             if o[0] == "add" and not sat and exp[w]["n"] < self.p["totmax"]:
                 g = copy.deepcopy(f)
-                r2 = g.remove(o[2], o[3])
+                r2 = g.remove(self.rk(o[2]), o[3])
                 t.check(bytes(g) == bytes_before, "C08", "C08.cb_undo", ENGINE, lambda: rp2(after_undo=self.observe(g)), sig)
             if o[0] == "rem" and before["est"][o[2]] == 0:
                 t.check(ret == 0 and bytes(f) == bytes_before, "C08", "C08.cb_absent_noop", ENGINE, rp2, sig)
@@ -338,13 +362,13 @@ class Ctx:
             return
         t.check(uc == exp["U"], "C12", "C12.cells", ENGINE, lambda: rp2(union=uc), sigb)
         t.check(self.cells(u2) == uc, "C13", "C13.symmetric_union", ENGINE, rp2, sigb)
-        sup = [k for k in self.keys if (obs["A"]["est"][k] or obs["B"]["est"][k]) and not u.check(k)]
+        sup = [k for k in self.keys if (obs["A"]["est"][k] or obs["B"]["est"][k]) and not u.check(self.rk(k))]
         t.check(not sup, "C12", "C12.superset", ENGINE, lambda: rp2(missing=sup), sigb)
         if not self.counting:
-            owed = [k for k in self.keys if (exp["A"]["out"][k] > 0 or exp["B"]["out"][k] > 0) and not u.check(k)]
+            owed = [k for k in self.keys if (exp["A"]["out"][k] > 0 or exp["B"]["out"][k] > 0) and not u.check(self.rk(k))]
             t.check(not owed, "C01", "C01.present_after_union", ENGINE, lambda: rp2(missing=owed), sigb)
         else:
-            low = [k for k in self.keys if u.check(k) < min(exp["A"]["out"][k] + exp["B"]["out"][k], self.cellmax)]
+            low = [k for k in self.keys if u.check(self.rk(k)) < min(exp["A"]["out"][k] + exp["B"]["out"][k], self.cellmax)]
             t.check(not low, "C12", "C12.sum_lower", ENGINE, lambda: rp2(below=low), sigb)
         if t.focus == "C12" and not any(op[0] == "rem" for op in hist + [o]):  # literal form: one real structure fed all additions of both
             single = self.new("mem", hf)
@@ -366,7 +390,7 @@ class Ctx:
                 pass
         t.check(xc == exp["I"], "C13", "C13.inter_bits", ENGINE, lambda: rp2(inter=xc), sigb)
         t.check(self.cells(x2) == xc, "C13", "C13.symmetric_intersection", ENGINE, rp2, sigb)
-        both = [k for k in self.keys if obs["A"]["est"][k] and obs["B"]["est"][k] and not x.check(k)]
+        both = [k for k in self.keys if obs["A"]["est"][k] and obs["B"]["est"][k] and not x.check(self.rk(k))]
         t.check(not both, "C13", "C13.inter_both", ENGINE, lambda: rp2(missing=both), sigb)
         num, den = exp["J"]
         t.check(j == num / den and isinstance(j, float), "C13", "C13.jaccard_value", ENGINE, lambda: rp2(jaccard=j), sigb)
@@ -528,10 +552,23 @@ def profiles(tier, seed, light=False):
             P.append(dict(cb, M=M, K=K, H=H, ntables=25))
         for (M, K, H) in [(3, 2, 5), (2, 1, 3), (4, 3, 7)]:
             P.append(dict(cb, M=M, K=K, H=H, ntables=30, cellmax=3, totmax=5, amts=[1, 2, 4, 7], maxn=8, maxdepth=4, patch_limits=True, keys=["a", "b"]))
+    # the strategies the properties quantify over, on real text / bytes keys (table = the strategy's own answers)
+    strat = ["fnv", "md5", "sha256", "deco_int", "handwritten"] if tier == "quick" else ["fnv", "md5", "sha256", "deco_int", "deco_bytes", "handwritten"]
+    geos = [(7, 5), (9, 2)] if tier == "quick" else [(3, 2), (7, 5), (8, 2), (9, 2), (17, 2), (13, 5)]
+    for i, st in enumerate(strat):
+        for j, (M, K) in enumerate(geos):
+            if tier == "quick" and (i + j) % 2:
+                continue
+            P.append(dict(base, M=M, K=K, H=0, ntables=1, strategy=st, kinds=("mem", "disk") if (i + j) % 3 == 0 else ("mem", "mem"), maxdepth=3 if tier == "quick" else 4))
+    P.append(dict(base, counting=True, amts=[1, 2], cellmax=1000, totmax=1000, maxn=2, maxdepth=3, M=4, K=3, H=0, ntables=1, strategy="fnv"))
+    P.append(dict(base, counting=True, amts=[1, 2], cellmax=1000, totmax=1000, maxn=2, maxdepth=3, M=8, K=2, H=0, ntables=1, strategy="sha256"))
     if light and tier == "quick":  # cross-cutting properties ride on a reduced set of instances
         P = [dict(p, ntables=min(p["ntables"], 3)) for p in P if not p.get("patch_limits")]
     for i, p in enumerate(P):
-        p["tables"] = gen_tables(p["keys"], p["M"], p["K"], p["H"], p["ntables"], seed * 1000 + i, p.get("exhaustive", False))
+        if p.get("strategy"):
+            p["tables"] = [strategy_table(p["strategy"], p["keys"], p["K"], p["M"])]
+        else:
+            p["tables"] = gen_tables(p["keys"], p["M"], p["K"], p["H"], p["ntables"], seed * 1000 + i, p.get("exhaustive", False))
     return P
 
 
